@@ -14,6 +14,13 @@
 (* Other holders of the eviction mutex are separate processes: the         *)
 (* InvalidateAll and Hottest/Coldest holders release the mutex WITHOUT     *)
 (* rescheduleCleanUpIfIncomplete unless FixHolders is TRUE (finding F9).   *)
+(*                                                                         *)
+(* Drop names the places where the protocol re-schedules or re-checks:     *)
+(*   db_lock / db_token / pc : the reschedule after the three ways a       *)
+(*                             spawned task gets to run maintenance        *)
+(*   sm_maint / sm_rs / cleanup : the same for SetMaximum and CleanUp      *)
+(*   saw_cas : the CAS (with retry) processing-to-idle -> -to-required     *)
+(*   mt_cas  : the final CAS of maintenance (processing-to-idle -> idle)   *)
 (***************************************************************************)
 EXTENDS Integers, Sequences, FiniteSets, TLC
 
@@ -22,7 +29,10 @@ CONSTANTS Writers,        \* set of writer process ids
           Tasks,          \* pool of ids for goroutines spawned by the executor
           Holders,        \* set of extra lock-holder process ids
           HolderKind,     \* function Holders -> {"invalidateAll", "order", "getmax", "cleanup", "reader"}
-          FixHolders      \* TRUE: InvalidateAll / evictionOrder reschedule after unlocking
+          FixHolders,     \* TRUE: InvalidateAll / evictionOrder reschedule after unlocking
+          Drop            \* set of re-scheduling / re-check sites left out.  {} is the protocol of the code.  Every
+                          \* singleton is an ADVERSARIAL model that must violate NoStranded; TLC's counterexample is the
+                          \* schedule that needs that site, and is replayed on the real cache (tools/draincheck.py)
 
 Idle == 0
 Required == 1
@@ -71,7 +81,7 @@ begin
  mt_final:     st := status;
  mt_finalCAS:  if st # P2I then
  mt_storeReq1:    status := Required;
-               elsif status = P2I then status := Idle;
+               elsif status = P2I \/ "mt_cas" \in Drop then status := Idle;
                else
  mt_storeReq2:    status := Required;
                end if;
@@ -93,7 +103,7 @@ begin
             elsif ds = Required then
                call SDB();
             elsif ds = P2I then
- saw_casP2I:   if status = P2I then status := P2R; else goto saw_load; end if;
+ saw_casP2I:   if status = P2I \/ "saw_cas" \in Drop then status := P2R; else goto saw_load; end if;
             end if;
      end while;
 end process;
@@ -103,14 +113,14 @@ begin
  T0:        await self \in spawned;
  db_enter:  if ~lock then
                lock := TRUE;
-               call Maint(TRUE);
+               call Maint("db_lock" \notin Drop);
             else
  db_token:     if token[self] = 0 then
                   token[self] := 1;                        \* the scheduling goroutine still holds the mutex: take it over
-                  call Maint(TRUE);
+                  call Maint("db_token" \notin Drop);
                else
  pc_lock:         await ~lock; lock := TRUE;               \* performCleanUp: blocking Lock
-                  call Maint(TRUE);
+                  call Maint("pc" \notin Drop);
                end if;
             end if;
  T_end:     \* the goroutine is gone; its id returns to the pool once the spawner is past its token CAS
@@ -131,14 +141,14 @@ begin
                call Maint(FixHolders);
      elsif HolderKind[self] = "getmax" then
  sm_lock:      await ~lock; lock := TRUE;
- sm_check:     if status = Required then call Maint(TRUE);
+ sm_check:     if status = Required then call Maint("sm_maint" \notin Drop);
                else
  sm_unlock:       lock := FALSE;
- sm_rs:           if status = Required then call SDB(); end if;
+ sm_rs:           if "sm_rs" \notin Drop /\ status = Required then call SDB(); end if;
                end if;
      elsif HolderKind[self] = "cleanup" then
  pc_lock2:     await ~lock; lock := TRUE;
-               call Maint(TRUE);
+               call Maint("cleanup" \notin Drop);
      else   \* reader that found the status required (getNode miss path)
  rd_load:      if status = Required then call SDB(); end if;
      end if;
@@ -282,7 +292,7 @@ mt_finalCAS(self) == /\ pc[self] = "mt_finalCAS"
                      /\ IF st[self] # P2I
                            THEN /\ pc' = [pc EXCEPT ![self] = "mt_storeReq1"]
                                 /\ UNCHANGED status
-                           ELSE /\ IF status = P2I
+                           ELSE /\ IF status = P2I \/ "mt_cas" \in Drop
                                       THEN /\ status' = Idle
                                            /\ pc' = [pc EXCEPT ![self] = "mt_unlock"]
                                       ELSE /\ pc' = [pc EXCEPT ![self] = "mt_storeReq2"]
@@ -383,7 +393,7 @@ saw_casIdle(self) == /\ pc[self] = "saw_casIdle"
                                      resched, st, n, ds >>
 
 saw_casP2I(self) == /\ pc[self] = "saw_casP2I"
-                    /\ IF status = P2I
+                    /\ IF status = P2I \/ "saw_cas" \in Drop
                           THEN /\ status' = P2R
                                /\ pc' = [pc EXCEPT ![self] = "W0"]
                           ELSE /\ pc' = [pc EXCEPT ![self] = "saw_load"]
@@ -403,7 +413,7 @@ T0(self) == /\ pc[self] = "T0"
 db_enter(self) == /\ pc[self] = "db_enter"
                   /\ IF ~lock
                         THEN /\ lock' = TRUE
-                             /\ /\ resched' = [resched EXCEPT ![self] = TRUE]
+                             /\ /\ resched' = [resched EXCEPT ![self] = "db_lock" \notin Drop]
                                 /\ stack' = [stack EXCEPT ![self] = << [ procedure |->  "Maint",
                                                                          pc        |->  "T_end",
                                                                          st        |->  st[self],
@@ -419,7 +429,7 @@ db_enter(self) == /\ pc[self] = "db_enter"
 db_token(self) == /\ pc[self] = "db_token"
                   /\ IF token[self] = 0
                         THEN /\ token' = [token EXCEPT ![self] = 1]
-                             /\ /\ resched' = [resched EXCEPT ![self] = TRUE]
+                             /\ /\ resched' = [resched EXCEPT ![self] = "db_token" \notin Drop]
                                 /\ stack' = [stack EXCEPT ![self] = << [ procedure |->  "Maint",
                                                                          pc        |->  "T_end",
                                                                          st        |->  st[self],
@@ -435,7 +445,7 @@ db_token(self) == /\ pc[self] = "db_token"
 pc_lock(self) == /\ pc[self] = "pc_lock"
                  /\ ~lock
                  /\ lock' = TRUE
-                 /\ /\ resched' = [resched EXCEPT ![self] = TRUE]
+                 /\ /\ resched' = [resched EXCEPT ![self] = "pc" \notin Drop]
                     /\ stack' = [stack EXCEPT ![self] = << [ procedure |->  "Maint",
                                                              pc        |->  "T_end",
                                                              st        |->  st[self],
@@ -528,7 +538,7 @@ sm_lock(self) == /\ pc[self] = "sm_lock"
 
 sm_check(self) == /\ pc[self] = "sm_check"
                   /\ IF status = Required
-                        THEN /\ /\ resched' = [resched EXCEPT ![self] = TRUE]
+                        THEN /\ /\ resched' = [resched EXCEPT ![self] = "sm_maint" \notin Drop]
                                 /\ stack' = [stack EXCEPT ![self] = << [ procedure |->  "Maint",
                                                                          pc        |->  "Done",
                                                                          st        |->  st[self],
@@ -548,7 +558,7 @@ sm_unlock(self) == /\ pc[self] = "sm_unlock"
                                    myTask, resched, st, n, ds >>
 
 sm_rs(self) == /\ pc[self] = "sm_rs"
-               /\ IF status = Required
+               /\ IF "sm_rs" \notin Drop /\ status = Required
                      THEN /\ stack' = [stack EXCEPT ![self] = << [ procedure |->  "SDB",
                                                                    pc        |->  "Done",
                                                                    myTask    |->  myTask[self] ] >>
@@ -563,7 +573,7 @@ sm_rs(self) == /\ pc[self] = "sm_rs"
 pc_lock2(self) == /\ pc[self] = "pc_lock2"
                   /\ ~lock
                   /\ lock' = TRUE
-                  /\ /\ resched' = [resched EXCEPT ![self] = TRUE]
+                  /\ /\ resched' = [resched EXCEPT ![self] = "cleanup" \notin Drop]
                      /\ stack' = [stack EXCEPT ![self] = << [ procedure |->  "Maint",
                                                               pc        |->  "Done",
                                                               st        |->  st[self],
